@@ -65,6 +65,8 @@ def cases(draw, tier):
             k = draw(st.sampled_from(['ok', 'ok', 'fail', 'leak', 'nested', 'probe', 'dirty', 'gc_inside']))
             if k == 'ok':
                 ops.append({'k': 'ok', 'prog': draw(small_prog(tier))})
+                if draw(st.integers(0, 2)) == 0:
+                    ops.append({'k': 'ok', 'prog': copy.deepcopy(ops[-1]['prog'])})      # the same simulation once more
             elif k == 'fail':
                 p = draw(small_prog(tier))
                 for r in p['roots']:
@@ -234,15 +236,25 @@ class C15(Check):
 
     def history(self, out, case):
         special = 0
+        dates = {}          # date condition objects kept by "the program" from one run to the next
         for n, op in enumerate(case['ops']):
             k = op['k']
             if k == 'probe':
                 self.after_run(out, 'probe')
                 continue
             prog = op['prog']
-            it, oc, exc, p = execute(prog, Probe(b_step=5000, b_total=80000))
+            it, oc, exc, p = execute(prog, Probe(b_step=5000, b_total=80000), hooks={'date_cache': dates})
             out.evals += 1
             self.after_run(out, k)
+            if k == 'ok' and not op.get('gc'):
+                # the same run alone (fresh objects): what happened earlier on this thread must not matter
+                alone, oc2, exc2, _ = execute(prog, Probe(b_step=5000, b_total=80000))
+                out.evals += 1
+                if (oc, trace(it)) != (oc2, trace(alone)):
+                    a, b = trace(it), trace(alone)
+                    d = next((i for i, (x, y) in enumerate(zip(a, b)) if x != y), min(len(a), len(b)))
+                    out.fail('isolation', 'run_depends_on_history', 'run #%d (%s) differs from the same run alone at row %d: %r vs %r' % (
+                        n, oc, d, a[d:d + 1], b[d:d + 1]))
             names = root_names(prog)
             starts = [e for e in it.log if e[3] == 'start' and e[1] in names and e[0] <= it.end_seq]
             # roots start in argument order at `start` - as far as the run got
